@@ -100,6 +100,8 @@ static Coefficient rnd_bound(Rng& r, const Profile& pf, long den) {
   }
 }
 static long rnd_den(Rng& r, const Profile& pf) {
+  // floating-point bounds: non-representable rationals most of the time, so that every rounding matters
+  if (pf.is_float && r.chance(1, 2)) { static const long d[] = {3, 5, 7, 10, 3, 6}; return d[r.below(6)]; }
   unsigned k = r.below(10);
   if (k < 6) return 1;
   if (k < 8) return 2;
